@@ -192,6 +192,16 @@ theorem yearStart_common {yoe : Int} (_h0 : 0 ≤ yoe) (_h1 : yoe ≤ 399)
     have a100 : (yoe + 1) / 100 = yoe / 100 := by omega
     omega
 
+theorem validDate_bounds' {y m d : Int} (h : validDate y m d = true) : (1 ≤ m ∧ m ≤ 12) ∧ (1 ≤ d ∧ d ≤ 31) := by
+  rw [validDate_iff] at h
+  obtain ⟨c2, c30, c31⟩ := daysInMonth_cases y m
+  refine ⟨⟨h.1, h.2.1⟩, h.2.2.1, ?_⟩
+  have hm : m = 2 ∨ (m = 4 ∨ m = 6 ∨ m = 9 ∨ m = 11) ∨ (m = 1 ∨ m = 3 ∨ m = 5 ∨ m = 7 ∨ m = 8 ∨ m = 10 ∨ m = 12) := by omega
+  rcases hm with hm | hm | hm
+  · have := c2 hm; split at this <;> omega
+  · have := c30 hm; omega
+  · have := c31 hm; omega
+
 /-- the day of the (March-based) year of a valid date lies inside that year -/
 theorem doy_bound (y m d : Int) (hv : validDate y m d = true) :
     let y0 := if m ≤ 2 then y - 1 else y
